@@ -683,6 +683,49 @@ func genAuth() (string, error) {
 		return true
 	})
 	emitList("applyTransactionsBatchUses", "ApplyTransactions: every call that involves a batch verifier, source order", batchUses)
+	// first pass: the bookkeeping that maps batch indices back to transactions runs for EVERY transaction,
+	// whatever CheckTx answered (CheckSignature queues the signature before it can still fail, e.g. as
+	// unauthorized): no continue / break / return between the CheckTx call and the bookkeeping loop
+	var firstPass []string
+	unconditional := false
+	for _, st := range atx.Body.List {
+		rs, ok := st.(*ast.RangeStmt)
+		if !ok || !strings.Contains(g.StmtText(rs), "s.CheckTx(") || !strings.Contains(g.StmtText(rs), "batchToTxIdx = append") {
+			continue
+		}
+		checkAt, bookAt := -1, -1
+		for i, bs := range rs.Body.List {
+			t := g.StmtText(bs)
+			if strings.Contains(t, "s.Metrics") || strings.Contains(t, "time.") {
+				continue
+			}
+			firstPass = append(firstPass, t)
+			if strings.Contains(t, "s.CheckTx(") && checkAt < 0 {
+				checkAt = i
+			}
+			if _, isFor := bs.(*ast.ForStmt); isFor && strings.Contains(t, "batchToTxIdx = append") {
+				bookAt = i
+			}
+		}
+		if checkAt >= 0 && bookAt > checkAt {
+			jumps := 0
+			for _, bs := range rs.Body.List[checkAt : bookAt+1] {
+				ast.Inspect(bs, func(nd ast.Node) bool {
+					switch nd.(type) {
+					case *ast.BranchStmt, *ast.ReturnStmt:
+						jumps++
+					case *ast.FuncLit:
+						return false
+					}
+					return true
+				})
+			}
+			unconditional = jumps == 0
+		}
+		break
+	}
+	emitList("applyTransactionsFirstPass", "ApplyTransactions: body of the first (check) pass, metrics dropped", firstPass)
+	fmt.Fprintf(&b, "/-- no continue/break/return between the CheckTx call and the batchToTxIdx bookkeeping loop -/\ndef firstPassBookkeepingUnconditional : Bool := %v\n\n", unconditional)
 
 	b.WriteString("end Canopy.Gen.Auth\n")
 	return b.String(), nil
